@@ -161,7 +161,7 @@ func ruleFuncValuesOfCorrectType(observers *Events, addError AddErrFunc, disable
 						isNullLiteral := fieldValue == nil || fieldValue.Kind == ast.NullValue
 						if isNullLiteral {
 							addError(
-								Message(`Field "%s.%s" must be non-null.`, value.Definition.Name, value.Definition.Fields[0].Name),
+								Message(`Field "%s.%s" must be non-null.`, value.Definition.Name, value.Children[0].Name),
 								At(fieldValue.Position),
 							)
 							return
